@@ -264,6 +264,8 @@ EXTRA = [
     "SELECT $$it\u2019s$$, '\\'x', 'a''b' FROM t",
     "SELECT a FROM t WHERE b = ARRAY[]::varchar[]",
     "ALTER TABLE t ADD COLUMN c INT",
+    "ALTER POLICY p ON t RENAME TO q",
+    "ALTER CONNECTOR c SET DCPROPERTIES (b = '2', a = 'it''s')",
     "MERGE INTO target t USING source s ON t.id = s.id WHEN MATCHED THEN UPDATE SET val = s.val WHEN NOT MATCHED THEN INSERT (id, val) VALUES (s.id, s.val)",
 ]
 
@@ -414,9 +416,169 @@ def coq_gexpr(t):
             return "(GInterval %s)" % S(t.get("Value", ""))
         if k == "ArrayConstructorExpression" and not extra(["Elements"]):
             return "(GArray %s None)" % L(t.get("Elements"))
+        if k == "AliasedExpression" and not extra(["Alias", "Expr"]) and "Expr" in t:
+            return "(GAliased %s %s)" % (C(t["Expr"]), S(t.get("Alias", "")))
+        if k == "ListExpression" and not extra(["Values"]):
+            return "(GList %s)" % L(t.get("Values"))
+        if k == "RollupExpression" and not extra(["Expressions"]):
+            return "(GRollup %s)" % L(t.get("Expressions"))
+        if k == "CubeExpression" and not extra(["Expressions"]):
+            return "(GCube %s)" % L(t.get("Expressions"))
     except KeyError:
         return None
     return None
+
+
+class Unmodelled(Exception):
+    pass
+
+
+def coq_gstmt(t):
+    """typed mirror (gstmt) of a harness statement tree; raises Unmodelled for shapes outside Model/StmtPrint.v.  Checked in
+    Coq against the dump (reflect_stmt)."""
+    S = G.coq_str
+    B = G.coq_bool
+    def only(t, allowed):
+        if set(t) - {"_"} - set(allowed):
+            raise Unmodelled(t.get("_"))
+    def E(x):
+        r = coq_gexpr(x)
+        if r is None:
+            raise Unmodelled("expr")
+        return r
+    def EL(l): return "[" + "; ".join(E(x) for x in (l or [])) + "]"
+    def OE(x): return "None" if x is None else "(Some %s)" % E(x)
+    def ptr(x, f):
+        if x is None: return "None"
+        return "(Some %s)" % f(x["*"])
+    Zs = lambda n: "(%d)%%Z" % n
+    def strs(l): return "[" + "; ".join(S(x) for x in (l or [])) + "]"
+    def order(o):
+        only(o, ["Ascending", "Expression", "NullsFirst"])
+        return "(GOrder %s %s %s)" % (E(o["Expression"]), B(o.get("Ascending", False)), ptr(o.get("NullsFirst"), B))
+    def table(x):
+        only(x, ["Alias", "Lateral", "Name", "Subquery"])
+        q = x.get("Subquery")
+        return "(GTable %s %s %s %s)" % (S(x.get("Name", "")), S(x.get("Alias", "")), "None" if q is None else "(Some %s)" % select(q), B(x.get("Lateral", False)))
+    def join(j):
+        only(j, ["Condition", "Left", "Right", "Type"])
+        return "(GJoin %s %s %s %s)" % (S(j.get("Type", "")), table(j.get("Left", {"_": "TableReference"})), table(j.get("Right", {"_": "TableReference"})), OE(j.get("Condition")))
+    def with_(w):
+        if w is None: return "None"
+        only(w, ["CTEs", "Recursive"])
+        ctes = []
+        for c in w.get("CTEs", []):
+            only(c, ["Columns", "Materialized", "Name", "Statement"])
+            ctes.append("(GCte %s %s %s %s)" % (S(c.get("Name", "")), strs(c.get("Columns")), stmt(c["Statement"]), ptr(c.get("Materialized"), B)))
+        return "(Some (GWith %s [%s]))" % (B(w.get("Recursive", False)), "; ".join(ctes))
+    def fetch(f):
+        if f is None: return "None"
+        only(f, ["FetchType", "FetchValue", "IsPercent", "WithTies"])
+        return "(Some (GFetch %s %s %s %s))" % (S(f.get("FetchType", "")), ptr(f.get("FetchValue"), Zs), B(f.get("IsPercent", False)), B(f.get("WithTies", False)))
+    def for_(f):
+        if f is None: return "None"
+        only(f, ["LockType", "NoWait", "SkipLocked", "Tables"])
+        return "(Some (GFor %s %s %s %s))" % (S(f.get("LockType", "")), strs(f.get("Tables")), B(f.get("NoWait", False)), B(f.get("SkipLocked", False)))
+    def select(q):
+        if q.get("_") != "SelectStatement": raise Unmodelled(q.get("_"))
+        only(q, ["Columns", "Distinct", "DistinctOnColumns", "Fetch", "For", "From", "GroupBy", "Having", "Joins", "Limit", "Offset", "OrderBy",
+                 "TableName", "Where", "With"])
+        return "(GSelect %s %s %s %s [%s] %s [%s] %s %s %s [%s] %s %s %s %s)" % (
+            with_(q.get("With")), B(q.get("Distinct", False)), EL(q.get("DistinctOnColumns")), EL(q.get("Columns")),
+            "; ".join(table(x) for x in q.get("From", [])), S(q.get("TableName", "")), "; ".join(join(j) for j in q.get("Joins", [])),
+            OE(q.get("Where")), EL(q.get("GroupBy")), OE(q.get("Having")), "; ".join(order(o) for o in q.get("OrderBy", [])),
+            ptr(q.get("Limit"), Zs), ptr(q.get("Offset"), Zs), fetch(q.get("Fetch")), for_(q.get("For")))
+    def upd(l):
+        out = []
+        for u in l or []:
+            only(u, ["Column", "Value"])
+            out.append("(%s, %s)" % (E(u["Column"]), E(u["Value"])))
+        return "[" + "; ".join(out) + "]"
+    def conflict(c):
+        if c is None: return "None"
+        only(c, ["Action", "Constraint", "Target"])
+        a = c.get("Action", {"_": "OnConflictAction"})
+        only(a, ["DoNothing", "DoUpdate", "Where"])
+        return "(Some (GConflict %s %s %s %s %s))" % (EL(c.get("Target")), S(c.get("Constraint", "")), B(a.get("DoNothing", False)), upd(a.get("DoUpdate")), OE(a.get("Where")))
+    def stmt(x):
+        k = x.get("_")
+        if k == "SelectStatement":
+            return "(GSelectS %s)" % select(x)
+        if k == "SetOperation":
+            only(x, ["All", "Left", "Operator", "Right"])
+            return "(GSetOp %s %s %s %s)" % (stmt(x["Left"]), S(x.get("Operator", "")), stmt(x["Right"]), B(x.get("All", False)))
+        if k == "InsertStatement":
+            only(x, ["Columns", "OnConflict", "OnDuplicateKey", "Query", "Returning", "TableName", "Values", "With"])
+            od = x.get("OnDuplicateKey")
+            if od is not None: only(od, ["Updates"])
+            rows = "[" + "; ".join(EL(r) for r in x.get("Values", [])) + "]"
+            q = x.get("Query")
+            return "(GInsert %s %s %s %s %s %s %s %s)" % (with_(x.get("With")), S(x.get("TableName", "")), EL(x.get("Columns")), rows,
+                                                       "None" if q is None else "(Some %s)" % stmt(q), EL(x.get("Returning")),
+                                                       conflict(x.get("OnConflict")), upd(od.get("Updates") if od else []))
+        if k == "UpdateStatement":
+            only(x, ["Alias", "Assignments", "From", "Returning", "TableName", "Where", "With"])
+            return "(GUpdate %s %s %s %s [%s] %s %s)" % (with_(x.get("With")), S(x.get("TableName", "")), S(x.get("Alias", "")), upd(x.get("Assignments")),
+                                                       "; ".join(table(t2) for t2 in x.get("From", [])), OE(x.get("Where")), EL(x.get("Returning")))
+        if k == "DeleteStatement":
+            only(x, ["Alias", "Returning", "TableName", "Using", "Where", "With"])
+            return "(GDelete %s %s %s [%s] %s %s)" % (with_(x.get("With")), S(x.get("TableName", "")), S(x.get("Alias", "")),
+                                                    "; ".join(table(t2) for t2 in x.get("Using", [])), OE(x.get("Where")), EL(x.get("Returning")))
+        raise Unmodelled(k)
+    return stmt(t)
+
+
+def run_tie_statements(rp, tier, rng, items):
+    """Go SQL() of real statements vs Model/StmtPrint.print_stmt on the reflected tree"""
+    seen, texts = set(), []
+    for it in items:
+        if it["src"] in ("model-stmt", "sqlgen", "corpus", "special") and it["out"].get("accepted") and it["sql"] not in seen \
+           and printable_str(it["sql"]) and len(it["sql"]) < 3000:
+            seen.add(it["sql"]); texts.append((it["id"], it["sql"]))
+    rng.shuffle(texts)
+    texts = texts[:700 if tier == "quick" else 9000]
+    outs = vh_lines("c06stmt", [], [{"id": i, "sql": s} for i, s in texts])
+    cases, unmod, oracle_bad = [], 0, []
+    for (cid, sql), o in zip(texts, outs):
+        if o.get("panic"):
+            oracle_bad.append((cid, sql, "panic: " + o["panic"][:200])); continue
+        if not o.get("accepted"):
+            continue
+        if o.get("reparse"):
+            oracle_bad.append((cid, sql, o["reparse"]))
+        if "tokens" not in o or not printable_str(o.get("sql_out", "")):
+            unmod += 1; continue
+        try:
+            g = coq_gstmt(o["tree"])
+        except (Unmodelled, KeyError):
+            unmod += 1; continue
+        cases.append((cid, sql, o, g))
+    def mk(c):
+        cid, sql, o, g = c
+        toks = "[" + "; ".join(G.coq_tok(t["ty"], t["lit"], t["n"]) for t in o["tokens"]) + "]"
+        return "(%s, %s, %s)" % (g, G.coq_sx(o["tree"]), toks)
+    head = COQ_HEAD.replace("Model.ExprPrint.", "Model.ExprPrint Spec.RefStmt Model.StmtPrint.")
+    shards = [cases[i:i + 150] for i in range(0, len(cases), 150)]
+    def one(ix):
+        terms = [mk(x) for x in shards[ix]]
+        decls = "Definition cases : list (gstmt * sx * list token) := [\n  %s].\n" % ";\n  ".join(terms)
+        body = head + decls + "\nDefinition results := Eval vm_compute in (map (print_stmt_case %s) cases).\nPrint results.\n" % PF_TREE
+        ok, out, err = common.coq_cases("c06_stmt_%d" % ix, body, timeout=900)
+        if not ok:
+            raise common.StageError("coq-cases", "case file c06_stmt_%d failed: %s" % (ix, err[-1500:]))
+        return common.parse_nlist(out)
+    res = []
+    with concurrent.futures.ThreadPoolExecutor(max_workers=8) as ex:
+        for r in ex.map(one, range(len(shards))):
+            res += r
+    bad = [(c, r) for c, r in zip(cases, res) if r in (1, 3)]
+    rp.cov["tie_stmt_cases"] = len(cases)
+    rp.cov["tie_stmt_agree"] = sum(1 for r in res if r == 0)
+    rp.cov["tie_stmt_unmodelled"] = sum(1 for r in res if r == 2) + unmod
+    kinds = collections.Counter(c[2]["tree"].get("_") for c, r in zip(cases, res) if r == 0)
+    rp.cov["tie_stmt_kinds_agree"] = dict(kinds)
+    return cases, bad, oracle_bad
+
 
 
 def tie_expressions(rng, tier, items):
@@ -426,8 +588,8 @@ def tie_expressions(rng, tier, items):
     def add(cid, text):
         if text not in seen and printable_str(text):
             seen.add(text); out.append((cid, text))
-    for it in items:
-        if "e" in it:
+    for k, it in enumerate(items):
+        if "e" in it and (tier != "quick" or it["src"] != "pair" or k % 2 == 0 or it["id"].startswith("neg")):
             add(it["id"], G.text_of(G.Renderer({}).render(0, it["e"])))
     n = 300 if tier == "quick" else 4000
     for i in range(n):
@@ -474,7 +636,7 @@ def run_tie_printer(rp, tier, rng, items):
         cid, sql, o, g = c
         toks = "[" + "; ".join(G.coq_tok(t["ty"], t["lit"], t["n"]) for t in o["tokens"]) + "]"
         return "(%s, %s, %s)" % (g, G.coq_sx(o["tree"]), toks)
-    res = coq_eval_shards("c06_print", cases, mk, "print_case " + PF_TREE, shard=250, decl_type="list (gexpr * sx * list token)")
+    res = coq_eval_shards("c06_print", cases, mk, "print_case " + PF_TREE, shard=200, decl_type="list (gexpr * sx * list token)")
     bad = [(c, r) for c, r in zip(cases, res) if r in (1, 3)]
     rp.cov["tie_printer_cases"] = len(cases)
     rp.cov["tie_printer_agree"] = sum(1 for r in res if r == 0)
@@ -511,7 +673,11 @@ def run_tie_codecs(rp, tier, rng):
         k = rng.randrange(0, 12)
         contents.append([rng.choice(special) if rng.random() < 0.5 else rng.randrange(0, 128) for _ in range(k)])
     words = reserved_candidates()
-    idents = [list(w.lower().encode()) for w in words] + [list(w.encode()) for w in words] + [list(w.capitalize().encode()) for w in words]
+    idents = [list(w.lower().encode()) for w in words]
+    if tier == "quick":      # the other spellings: a rotating third per run of the quick tier, all in thorough
+        idents += [list((w if i % 2 else w.capitalize()).encode()) for i, w in enumerate(words) if i % 3 == common.seed() % 3]
+    else:
+        idents += [list(w.encode()) for w in words] + [list(w.capitalize().encode()) for w in words]
     idents += [[b] for b in range(1, 128)] + [[97, b, 98] for b in range(1, 128)] + [[b, 97] for b in range(48, 58)]
     for _ in range(n // 2):
         k = rng.randrange(1, 10)
@@ -538,10 +704,10 @@ def run_tie_codecs(rp, tier, rng):
             oracle_bad.append(("identifier", c, idn))
     def mk_l(c):
         return "(%s, %s, %s)" % (L(c[0]), L(c[1]), "None" if c[2] is None else "(Some %s)" % L(c[2]))
-    r1 = coq_eval_shards("c06_lit", lit_cases, mk_l, "fun c => if lit_case %s c then 0%%N else 1%%N" % CF_TREE, shard=400,
+    r1 = coq_eval_shards("c06_lit", lit_cases, mk_l, "fun c => if lit_case %s c then 0%%N else 1%%N" % CF_TREE, shard=120,
                          decl_type="list (list nat * list nat * option (list nat))")
     r2 = coq_eval_shards("c06_ident", id_cases, lambda c: "(%s, %s)" % (L(c[0]), L(c[1])),
-                         "fun c => if ident_case %s c then 0%%N else 1%%N" % PF_TREE, shard=400, decl_type="list (list nat * list nat)")
+                         "fun c => if ident_case %s c then 0%%N else 1%%N" % PF_TREE, shard=150, decl_type="list (list nat * list nat)")
     bad = [("literal", c) for c, r in zip(lit_cases, r1) if r] + [("identifier", c) for c, r in zip(id_cases, r2) if r]
     rp.cov["tie_codec_literal_cases"] = len(lit_cases)
     rp.cov["tie_codec_identifier_cases"] = len(id_cases)
@@ -641,7 +807,9 @@ THEOREMS = ["Props.C06.C06_print_is_render", "Props.C06.C06_print_parse_expr", "
             "Props.C06.C06_format_idempotent", "Props.C06.C06_literal_roundtrip", "Props.C06.C06_ident_roundtrip",
             "Props.C06.C06_refuted_no_parens", "Props.C06.C06_refuted_is_not_null_lost", "Props.C06.C06_refuted_reserved_raw",
             "Props.C06.C06_refuted_dot_safe", "Props.C06.C06_refuted_digit_safe", "Props.C06.C06_refuted_ctrlz_escape", "Props.C06.C06_refuted_triple_quote",
-            "Props.C06.C06_refuted_drop_nul"]
+            "Props.C06.C06_refuted_drop_nul",
+            "Props.C06.C06_print_select_is_render", "Props.C06.C06_print_parse_select_partial",
+            "Props.C06.C06_print_stmt_is_render", "Props.C06.C06_print_parse_stmt_partial"]
 
 
 def run(tier):
@@ -651,9 +819,9 @@ def run(tier):
     try:
         with common.Lock():
             common.stage_harness()
-            ok_inst, ok_props, _, logs = common.coq_stage(rp, ["theories/Proofs/ExprPrintP.vo"], "theories/Props/C06.v", THEOREMS)
+            ok_inst, ok_props, _, logs = common.coq_stage(rp, ["theories/Proofs/ExprPrintP.vo", "theories/Proofs/StmtPrintP.vo"], "theories/Props/C06.v", THEOREMS)
             if not ok_inst:
-                ok_make, log_make = common.coq_make(["theories/Model/ExprPrint.vo"])
+                ok_make, log_make = common.coq_make(["theories/Model/ExprPrint.vo", "theories/Model/StmtPrint.vo"])
                 if not ok_make:
                     raise common.StageError("coq-model", log_make[-2000:])
     except common.StageError as e:
@@ -664,11 +832,15 @@ def run(tier):
     rp.assumptions = ["lexing (text -> tokens) is C04's theorem; per run the Go SQL() text is tokenized with the real tokenizer + converter and compared with the printer model's token list",
                       "theorems cover the expression sub-surface `proved` of C03 with printable names (Props/C06.v); function calls, CASE, tuples, sub-queries, every statement printer and the Format / CLI layouts are covered by the oracle and the printer correspondence only",
                       "byte-level codec models (string literal, quoted identifier) are ASCII: the real reader also normalises typographic quotes; names are compared byte-wise, unicode.IsLetter is taken as true for bytes >= 128"]
+    import time as _t
+    def phase(name, t0): rp.cov.setdefault("phase_seconds", {})[name] = round(_t.time() - t0, 1)
+    phase("coq_stage", rp.t0)
     try:
-        items, new_groups, known_groups = run_oracle(rp, tier, rng, kf)
-        pcases, pbad, poracle = run_tie_printer(rp, tier, rng, items)
-        cbad, coracle = run_tie_codecs(rp, tier, rng)
-        run_known(rp, kf)
+        t = _t.time(); items, new_groups, known_groups = run_oracle(rp, tier, rng, kf); phase("oracle", t)
+        t = _t.time(); pcases, pbad, poracle = run_tie_printer(rp, tier, rng, items); phase("tie_printer", t)
+        t = _t.time(); cbad, coracle = run_tie_codecs(rp, tier, rng); phase("tie_codecs", t)
+        t = _t.time(); scases, sbad, soracle = run_tie_statements(rp, tier, rng, items); phase("tie_statements", t)
+        t = _t.time(); run_known(rp, kf); phase("known_witnesses", t)
     except common.StageError as e:
         return common.stage_fail(rp, e)
     rp.obligation("oracle: every serialiser x configuration output is accepted, re-parses to the same tree, is a fixpoint of the serialiser and agrees with SQL() on tokens",
@@ -688,6 +860,12 @@ def run(tier):
         rp.violation(dict(kind="expr" if failing else "correspondence", broken="ExprPrint.print_expr vs SQL()" if r == 1 else "typed mirror emission vs dump",
                           sql=sql, sql_out=o.get("sql_out"), tokens=o.get("tokens"), why=o.get("reparse")),
                      "print_" + re.sub(r"\W+", "_", cid), no_input=not failing)
+    rp.obligation("tie: Go SQL() tokens of real statements = Model/StmtPrint.print_stmt on the reflected tree", not sbad, "%d disagreements" % len(sbad))
+    for (cid, sql, o, g), r in sbad[:5]:
+        failing = bool(o.get("reparse"))
+        rp.violation(dict(kind="roundtrip" if failing else "correspondence", broken="StmtPrint.print_stmt vs SQL()" if r == 1 else "typed mirror emission vs dump",
+                          sql=sql, sql_out=o.get("sql_out"), why=o.get("reparse")),
+                     "printstmt_" + re.sub(r"\W+", "_", cid), no_input=not failing)
     rp.obligation("tie: codec models = escapeStringLiteral / safeIdentifier text and what the tokenizer reads back", not cbad, "%d disagreements" % len(cbad))
     for kind, c in cbad[:4]:
         rp.violation(dict(kind="correspondence", broken="codec model vs Go (%s)" % kind, case=c), "codec_%s_%d" % (kind, cbad.index((kind, c))), no_input=True)
